@@ -165,6 +165,18 @@ PROPS = {
             {"run": "^TestC19$", "quick": 30000, "thorough": 300000},
         ],
     },
+    "C10": {
+        "level": "exploration",
+        "assumptions": [
+            "(A) 'intact' = the record denotes (spec.Abs) what it denoted when delivered; banks are closed only by the harness, once each",
+            "(B) the oracle never depends on which bank the sync.Pool hands back; double Close is a caller error and is not generated",
+        ],
+        "units": [
+            regress("C10"),
+            {"run": "^TestC10A$", "quick": 2000, "thorough": 15000},
+            {"run": "^TestC10B$", "quick": 2000, "thorough": 15000},
+        ],
+    },
     "C11": {
         "level": "exploration",
         "assumptions": [
@@ -174,6 +186,29 @@ PROPS = {
         "units": [
             regress("C11"),
             {"run": "^TestC11$", "quick": 1500, "thorough": 10000},
+        ],
+    },
+    "C20": {
+        "level": "exploration",
+        "assumptions": [
+            "registrations are process-global and cannot be undone: every run re-registers a baseline first, so a case is a pure function of its history",
+            "custom codecs frame their payload with a per-builder marker byte; 'which codec ran' is read from the bytes by the reference decoder and from per-builder call counters",
+        ],
+        "units": [
+            regress("C20"),
+            {"run": "^TestC20$", "quick": 2500, "thorough": 12000},
+        ],
+    },
+    "C12": {
+        "level": "exploration",
+        "assumptions": [
+            "built with -race: a data race is reported when the two accesses occur unordered in some observed run (happens-before detection), not only when they collide",
+            "interleavings are sampled by the Go scheduler; the harness does not own the schedule, so a race that needs an interleaving never produced within the budget is missed; failures do not shrink",
+            "sequential oracle: every op's expected result is computed before the goroutines start",
+        ],
+        "units": [
+            regress("C12"),
+            {"run": "^TestC12$", "quick": 400, "thorough": 1500, "race": True},
         ],
     },
     "C13": {
